@@ -347,6 +347,15 @@ func (fr *Frame) doSend(x *ssa.Send, st *State) *State {
 	if ex.P.sendHook != nil {
 		ex.P.sendHook(fr, st, x, v)
 	}
+	if cls, ts := fr.chanInvTerms(x.Chan, v, st); len(ts) > 0 {
+		for i, t := range ts {
+			lbl := cls[i].Label
+			if lbl == "" {
+				lbl = fmt.Sprintf("%d", i)
+			}
+			fr.oblige(st, "chaninv", chanFieldKey(x.Chan)+"/"+lbl, t, x.Pos())
+		}
+	}
 	if c := ex.P.contractFor(fr.fn); c != nil && len(c.OnSend) > 0 && !fr.inline {
 		env := ex.newEnv(st, fr.entry, fr)
 		env.pkg = contractPkg(c.Func)
@@ -370,10 +379,57 @@ func (fr *Frame) doSend(x *ssa.Send, st *State) *State {
 	return st
 }
 
+// chanFieldKey names the struct field a channel value was loaded from ("" if unknown).
+func chanFieldKey(v ssa.Value) string {
+	u, ok := v.(*ssa.UnOp)
+	if !ok {
+		return ""
+	}
+	fa, ok := u.X.(*ssa.FieldAddr)
+	if !ok {
+		return ""
+	}
+	pt, ok := under(fa.X.Type()).(*types.Pointer)
+	if !ok {
+		return ""
+	}
+	st, ok := under(pt.Elem()).(*types.Struct)
+	if !ok {
+		return ""
+	}
+	return typeName(pt.Elem()) + "." + st.Field(fa.Field).Name()
+}
+
+// chanInvTerms evaluates the channel invariants of ch for element v.
+func (fr *Frame) chanInvTerms(ch ssa.Value, v Val, st *State) ([]Clause, []Term) {
+	ex := fr.ex
+	key := chanFieldKey(ch)
+	cls := ex.P.db.ChanInv[key]
+	if key == "" || len(cls) == 0 {
+		return nil, nil
+	}
+	env := ex.newEnv(st, st, fr)
+	env.pkg = ex.P.db.ChanInvPkg[key]
+	env.vars["v"] = v
+	var ts []Term
+	for _, c := range cls {
+		ts = append(ts, safeEval(env, c))
+	}
+	return cls, ts
+}
+
 func (fr *Frame) doRecv(x *ssa.UnOp, st *State) *State {
 	ex := fr.ex
 	et := under(x.X.Type()).(*types.Chan).Elem()
 	v := ex.freshVal(st, "recv", et)
+	if _, ts := fr.chanInvTerms(x.X, v, st); len(ts) > 0 {
+		c := ex.val(fr, x.X, st).one()
+		closed := Select(st.get(ex.chanHeap("closed", SBool)), c)
+		ex.trusted["channel invariant of "+chanFieldKey(x.X)+" assumed at receives (checked at every send in the verified functions)"] = true
+		for _, t := range ts {
+			ex.vc.assert(Implies(st.reach, Or(closed, t)))
+		}
+	}
 	if ex.P.blockHook != nil {
 		ex.P.blockHook(fr, st, "recv "+exprLabel(fr, x.X), x)
 	}
@@ -419,6 +475,14 @@ func (fr *Frame) doSelect(x *ssa.Select, st *State) *State {
 		if s.Dir == types.RecvOnly {
 			et := under(s.Chan.Type()).(*types.Chan).Elem()
 			v := ex.freshVal(st, "selrecv", et)
+			if _, ts := fr.chanInvTerms(s.Chan, v, st); len(ts) > 0 {
+				c := ex.val(fr, s.Chan, st).one()
+				closed := Select(st.get(ex.chanHeap("closed", SBool)), c)
+				ex.trusted["channel invariant of "+chanFieldKey(s.Chan)+" assumed at receives (checked at every send in the verified functions)"] = true
+				for _, t := range ts {
+					ex.vc.assert(Implies(st.reach, Or(closed, t)))
+				}
+			}
 			res.L = append(res.L, v.L...)
 		} else {
 			c := ex.val(fr, s.Chan, st).one()
